@@ -49,3 +49,12 @@ claim('C02', 'other',
       'Trusted: reference lexical functions (bounded/C02.py), elementpath datatypes as a dependency (two of its defects are listed findings), '
       'years beyond 9 digits and BCE leap days outside the deciding scope.',
       'DESIGN.md 5/C02')
+
+claim('C03', 'other',
+      'Proved kernel + bounded: XsdAttributeGroup.iter_required and iter_value_constraints (both use_defaults values) are proved by loop '
+      'invariant to yield exactly the required names and exactly the fixed (and, when enabled, default) values; the wildcard leaf '
+      'is_namespace_allowed / is_matching is proved under C16. The per-attribute decision loop of XsdAttributeGroup.raw_decode is covered by a '
+      'bounded run-time contract through the real API: is_valid <=> attrs_valid and decoded absent attributes = fixed (+ defaults iff enabled), '
+      'over 13 034 configurations x name subsets x values (quick: one sixteenth, ~870 000 cases).',
+      'Trusted: the set-based reference attrs_valid; the corner "prohibited declaration that the wildcard admits" is outside the deciding scope (reported).',
+      'DESIGN.md 5/C03')
